@@ -1583,7 +1583,10 @@ func (b *Bitmap) unmarshalPilosaRoaring(data []byte) error {
 
 	// Read key count in bytes sizeof(cookie)+sizeof(flag):(sizeof(cookie)+sizeof(uint32)).
 	keyN := binary.LittleEndian.Uint32(data[3+1 : 8])
-	if uint32(len(data)) < headerBaseSize+keyN*12 {
+	// Each container has a 12 byte descriptor and a 4 byte offset. The count
+	// comes from the input: do the arithmetic in 64 bits so that a huge count
+	// cannot wrap around and pass.
+	if uint64(len(data)) < uint64(headerBaseSize)+uint64(keyN)*(12+4) {
 		return fmt.Errorf("malformed bitmap, key-cardinality not provided for %d containers", int(keyN)/12)
 	}
 
